@@ -241,6 +241,39 @@ func (w *World) Step(o HistOpts) string {
 		w.abs("create")
 	case "flush":
 		commitToo := r.Bool()
+		if r.P(0.4) && len(live) > 0 {
+			// the single-object flush names an object; it is not a write: whatever the caller's
+			// copy holds by now, reads keep showing the last accepted values (model unchanged)
+			x := w.callerCopy(pick(r, live))
+			how := "same"
+			switch {
+			case r.P(0.45):
+				mutateRec(r, x, o.Rec)
+				how = "modified-copy"
+			case r.P(0.15):
+				x = genRec(r, w.m.tags, o.Rec)
+				w.m.tags++
+				x.Initialize(w.absentUUID())
+				how = "never-stored"
+			}
+			api := "Flush"
+			if commitToo {
+				api = "FlushAndCommit"
+			}
+			w.logf("%s(%s) uuid=%s %s", api, how, short(x.UUID()), recBrief(x))
+			w.call(api, func() {
+				if commitToo {
+					w.db.FlushAndCommit(x)
+				} else {
+					w.db.Flush(x)
+				}
+			})
+			if how == "never-stored" {
+				w.checkAbsent(x.UUID())
+			}
+			w.abs("flush1:" + how)
+			break
+		}
 		if w.cfg.Async == 0 {
 			w.abs("flush")
 			break
